@@ -246,6 +246,47 @@ def sequence(ctx, runner, steps, kind=None):
         runner.add(o)
 
 
+def pool_only_shifts(ctx, runner, n):
+    """a vault whose collateral is (mostly) an LP position, minted to a little above 1.5x and found safe at one bar end; on the following bars
+    ONLY the squeeth-eth pool price moves (same norm factor, same ETH TWAP, no vault operation): the position's composition and with it its
+    value at the index price changes, and the bar-end check must see it"""
+    rng = ctx.rng
+    from demeter.squeeth import VaultKey
+    for _ in range(n):
+        env = G.gen_env(rng)
+        world = L.World(G.empty_state(rng, with_osqth=True), env)
+        world.set_env(dict(world.env, uniOpen=True))
+        pos = G.add_position(rng, world, fees=rng.random() < 0.4)
+        if pos is None:
+            continue
+        o = L.observe(world, {"k": "openMint", "deposit": D(rng.choice(("0", "0", "0.05"))), "mint": D("0.000001"), "vk": None, "pos": pos}, "directed:open-lp")
+        oracle(ctx, o)
+        runner.add(o)
+        st = world.dump_state()
+        mine = [int(k) for k, v in st["vaults"] if v["nft"] is not None and [int(x) for x in v["nft"]] == pos]
+        if o.err or not mine:
+            continue
+        vk = mine[-1]
+        try:
+            eff = world.sq._get_effective_collateral_in_eth(VaultKey(vk))
+            idx = G.index_price(world)
+            more = eff / (D(rng.choice(("1.505", "1.52", "1.6", "1.9"))) * idx) - D("0.000001")
+        except Exception:  # noqa: BLE001
+            continue
+        if more > 0:
+            o = L.observe(world, {"k": "openMint", "deposit": D(0), "mint": G.q(more, 12), "vk": vk, "pos": None}, "directed:mint-to-ratio")
+            oracle(ctx, o)
+            runner.add(o)
+        o = L.observe(world, {"k": "update"}, "directed:update-before-pool-move")
+        oracle(ctx, o)
+        runner.add(o)
+        for f in rng.sample(("0.5", "0.7", "0.85", "0.95", "1.05", "1.2", "1.5", "2"), 3):
+            world.set_env(dict(world.env, uniPrice=G.q(D(world.env["uniPrice"]) * D(f), 10), uniOpen=True))
+            o = L.observe(world, {"k": "update"}, "directed:update-after-pool-only-move")
+            oracle(ctx, o)
+            runner.add(o)
+
+
 def boundary_cases():
     """exactly representable ties; index = nf·weth/1e4 = 0.1 ETH per oSQTH, TWAP = spot"""
     E = G.exact_env
@@ -394,6 +435,7 @@ def run(ctx: Ctx):
         sequence(ctx, runner, ctx.rng.randint(4, 14))
     for i in range(ctx.scale(25, 600)):
         bar_loop(ctx, runner)
+    pool_only_shifts(ctx, runner, ctx.scale(40, 1000))
     for name, spec, env, op in boundary_cases():
         world = L.World(spec, env)
         o = L.observe(world, op, "boundary:" + name)
